@@ -73,13 +73,19 @@ func drawC20(src *vs.Src) *c20Params {
 	return p
 }
 
+// The default key exchange of crypto/tls (X25519MLKEM768) draws from the process-wide random source, not from
+// Config.Rand: its bytes enter the transcript, the ECDSA signature over the transcript then has a DER encoding
+// of varying length, and the number of transport operations (= kernel steps) varied between runs of one
+// seed (found by ./check selftest with 30 processes). X25519 alone takes all its randomness from Config.Rand.
+var c20Curves = []tls.CurveID{tls.X25519}
+
 func c20TLSConfigs(w *World) (*tls.Config, *tls.Config) {
 	cert := tls.Certificate{Certificate: [][]byte{fix.DER("tls")}, PrivateKey: fix.Key("tls")}
-	srv := &tls.Config{Certificates: []tls.Certificate{cert}, Rand: w.Rand("tls-s"), Time: FixedTime, MinVersion: tls.VersionTLS12}
+	srv := &tls.Config{Certificates: []tls.Certificate{cert}, Rand: w.Rand("tls-s"), Time: FixedTime, MinVersion: tls.VersionTLS12, CurvePreferences: c20Curves}
 	pool := stdx509.NewCertPool()
 	c, _ := stdx509.ParseCertificate(fix.DER("tls"))
 	pool.AddCert(c)
-	cli := &tls.Config{RootCAs: pool, ServerName: "server.test", Rand: w.Rand("tls-c"), Time: FixedTime, MinVersion: tls.VersionTLS12}
+	cli := &tls.Config{RootCAs: pool, ServerName: "server.test", Rand: w.Rand("tls-c"), Time: FixedTime, MinVersion: tls.VersionTLS12, CurvePreferences: c20Curves}
 	return cli, srv
 }
 
